@@ -40,8 +40,8 @@ Order (helpers: Garnish/Lemmas/BuildOrder*.lean), again for EVERY node vector, r
     `stack`; a scheduled operand of an inline node lies above the node, the operand that is emitted first above the
     other; only the node on top of `stack` gets instructions attributed; a finished inline node has finished operands.
     `prec_key`: while `x` is being visited nothing that has to follow `x` has been attributed yet.
-Stated, not proved (`C04_sibling_order_rest_statement`): the same for ElseJump, Subexpression / ExpressionSeparator and
-value-like nodes with side-effect blocks.  What does not hold (out-of-line parts) is documented there.
+The other node kinds and the out-of-line parts: Props/C04Order.lean (`C04_sibling_order_rest`, `C04_children_in_order`, …) and
+Props/C04Eval.lean (`C04_evaluation_order`).
 -/
 import Garnish.Lemmas.BuildAttr5
 import Garnish.Lemmas.BuildOrder9
@@ -224,30 +224,12 @@ theorem C04_sibling_order_statement_proved (F : Type) : C04_sibling_order_statem
   exact C04_sibling_order parseFloat fuel root nodes d d' entry h p l r pn swapped hp hl hr hib l r
     (InlineDesc.refl nodes l) (InlineDesc.refl nodes r) kl kr kp hkl hkr hkp hml hmr hmp
 
-/-- What is NOT proved about order — a precise statement of the remaining in-line cases.  All of them follow the same
-pattern as the proved ones (the children are scheduled on `stack` in the node's first visit, the one emitted first on
-top), but the invariant of Lemmas/BuildOrder*.lean only tracks the operands of inline binary operators and lists:
-  * `ElseJump` (`pn.definition = .elseJump`): left arm before right arm, nothing attributed to the node;
-  * `Subexpression` / `ExpressionSeparator`: `l`, then the node's own `UpdateValue`, then `r` (the node sits BETWEEN its
-    operands on `stack`);
-  * value-like nodes (Unit … ExpressionTerminator) with side-effect children: `l`, then the node's instruction, then `r`;
-  * one-operand nodes (unary prefix/suffix, Reapply, Prefix/SuffixApply, SideEffect, And/Or/JumpIf… for their `left`):
-    the operand before the node's (last) own instruction — SideEffect's `StartSideEffect` and Prefix/SuffixApply's
-    unattributed `Resolve` come before the operand.
-`mid = true` says the node's own instructions lie between those of its operands, `mid = false` that they lie after both.
-It does NOT extend to out-of-line parts (the right operand of `&&`/`||`, conditional arms, nested expression bodies):
-those are emitted after the root that contains them is finished, in the order fixed by `root_stack`. -/
-def C04_sibling_order_rest_statement (F : Type) : Prop :=
-  ∀ (parseFloat : List Char → Option F) (fuel root : Nat) (nodes : Array ParseNode) (d d' : BState F) (entry : Nat),
-    build parseFloat fuel root nodes d = .ok (d', entry) →
-    ∀ (p l r : Nat) (pn : ParseNode) (mid : Bool), nodes[p]? = some pn → pn.left = some l → pn.right = some r →
-      ((pn.definition = .elseJump ∧ mid = false) ∨
-       ((pn.definition = .subexpression ∨ pn.definition = .expressionSeparator) ∧ mid = true) ∨
-       (pn.definition ∈ [Definition.unit, .true, .false, .number, .charList, .byteList, .symbol, .value, .identifier,
-          .property, .expressionTerminator] ∧ mid = true)) →
-      ∀ kl kr kp : Nat, d.metadata.size ≤ kl → d.metadata.size ≤ kr → d.metadata.size ≤ kp →
-        d'.metadata[kl]? = some (some l) → d'.metadata[kr]? = some (some r) → d'.metadata[kp]? = some (some p) →
-        kl < kr ∧ kl < kp ∧ (if mid then kp < kr else kr < kp)
+/-! The remaining in-line cases (ElseJump, Subexpression / ExpressionSeparator, value-like nodes with side-effect blocks,
+one-operand nodes, SideEffect brackets) and the out-of-line parts are proved in Props/C04Order.lean / Props/C04Eval.lean with
+the general invariant of Lemmas/BuildSeq*.lean: `C04Order.C04_sibling_order_rest` proves the statement that was registered
+here as `C04_sibling_order_rest_statement` — with one correction: for a `Subexpression` node the node has to be reachable
+from the root (the validation lets `Subexpression` nodes stay outside the tree; the stale links of such a node say nothing
+about the order, so the statement as registered was false for them). -/
 
 /-! ### non-vacuity -/
 
